@@ -8,12 +8,12 @@ VERIF = os.path.dirname(os.path.abspath(__file__))
 CHECKS = {
     "C01": ("exploration",
             "runtime monitoring: real Table/routes/destinations driven with generated tables and lines, reference pipeline model, capture routes + per-destination/table/aggregation counter deltas behind Flush/FIFO-sentinel barriers, sequential per-line attribution and 8-way concurrent multisets, under -race",
-            "Generated tables (0-4 blacklist entries, 0-3 rewriters, 0-3 never-flushing aggregations some drop-raw, 1-6 routes of capture/sendAllMatch/sendFirstMatch/consistentHashing with 1-4 refusing destinations, all six filter options over a six-letter alphabet) receive generated lines; for every line the routes and destinations that were handed it and the in/invalid/blacklist/unroutable and aggregation-input counter movements are compared with a model written from the property and docs, per line sequentially and as multisets after 8-way concurrent dispatch. Held on N tables x lines, not a proof.",
+            "Generated tables (0-4 blacklist entries, 0-3 rewriters, 0-3 never-flushing aggregations some drop-raw, 1-6 routes of capture/sendAllMatch/sendFirstMatch/consistentHashing with 1-4 refusing destinations, all six filter options over a six-letter alphabet) receive generated lines; for every line the routes and destinations that were handed it and the in/invalid/blacklist/unroutable and aggregation-input counter movements are compared with a model written from the property and docs, per line sequentially and as multisets after 8-way concurrent dispatch. Held on N tables x lines, not a proof. A second part modifies generated tables at run time (UpdateRoute/UpdateDestination setting or clearing each option, DelDestination at any index, destinations and routes added and deleted) and attributes a batch of lines after every operation against the model changed by the same operation.",
             "A refusing destination with spool=false counts each hand-off once in conn_down_no_spool and Table.Flush() orders that count; which consistent-hashing destination takes a line is left to C15; filters and names stay within a small alphabet; tables are reused after being emptied via Del*.",
             "DESIGN.md §4 C01"),
     "C02": ("exploration",
             "runtime monitoring: differential against carbon20.ValidatePacket with harness-derived levels plus a doc-derived validator, per-line counter and capture deltas, bad-metrics report checked last-record-per-name with bounded retries",
-            "For all 3x2 level combinations written in TOML (plus omitted options, which must mean medium/medium), grammar-generated and byte-mutated lines are dispatched one at a time: forwarded iff valid, direction=in +1, type=invalid +1 iff rejected, match-all aggregation input count equals the valid lines, and every rejected name shows its last rejected text with a non-empty reason in Table.Bad().Get(1h).",
+            "For all 3x2 level combinations written in TOML (plus omitted options, which must mean medium/medium), grammar-generated and byte-mutated lines are dispatched one at a time: forwarded iff valid, direction=in +1, type=invalid +1 iff rejected, match-all aggregation input count equals the valid lines, and every rejected name shows its last rejected text with a non-empty reason in Table.Bad().Get(1h). A load part has 8-16 concurrent dispatchers reject distinct names while viewers read the report; after the report settles (probe-based) every rejected name must be listed with its last text (thorough tier: bursts larger than the 100000-record queue of the filing goroutine).",
             "The go-metrics20 dependency is trusted as the validity reference; the doc oracle decides only on classes it marks confident, its other disagreements are informational; unparseable lines are expected under the empty name.",
             "DESIGN.md §4 C02"),
     "C03": ("exploration",
@@ -28,12 +28,12 @@ CHECKS = {
             "DESIGN.md §4 C04"),
     "C05": ("exploration",
             "runtime monitoring: offline stream oracle (subsequence of unique hand-offs, order, framing) + conservation identity over counters, real destination to loopback endpoint, under -race",
-            "A real carbon route built from a command string (iobuf 1B..2MB, connbuf 1..30000, flush 1..100ms, plain and pickle) sends unique lines of generated lengths (5B..4x iobuf) in bursts and trickles to a loopback endpoint that records the byte stream; offline the stream must be exactly the handed lines (or one >I-prefixed pickle per line), each once, in hand-off order, newline-terminated, no tearing/merging; absent lines == slow_conn counter delta; direction=out == lines received. Held on the configurations and schedules produced.",
+            "A real carbon route built from a command string (iobuf 1B..2MB, connbuf 1..30000, flush 1..100ms, plain and pickle) sends unique lines of generated lengths (5B..4x iobuf) in bursts and trickles to a loopback endpoint that records the byte stream; offline the stream must be exactly the handed lines (or one >I-prefixed pickle per line), each once, in hand-off order, newline-terminated, no tearing/merging; absent lines == slow_conn counter delta; direction=out == lines received. Held on the configurations and schedules produced. Group cases run 3-6 destinations (mostly pickle) at once in one process with tiny I/O buffers and endpoints that pause reading; each stream is held to the same oracle for its own lines, a frame of another destination is a violation, and race reports with both stacks in the connection write path count.",
             "Healthy = loopback endpoint reading as fast as it can; runs with a reconnect are set aside as inconclusive; pickle frames decoded with og-rek here (CPython decoding is C16).",
             "DESIGN.md §4 C05"),
     "C06": ("exploration",
             "runtime monitoring: stall detector over every Table.Dispatch call (two stack samples of a parked goroutine) + conservation identities at steady states, scripted misbehaving endpoints, under -race",
-            "Fourteen endpoint scripts (absent, refuse-then-appear, black hole, throttled, healthy with tiny buffers / 8 dispatchers, abortive and graceful close early/late, appear-then-abort) x generated queue/buffer settings; 1-8 dispatchers push traffic beyond every buffer through a real table with a second healthy route; every Dispatch call is timed and a call in flight beyond the stall bound is a violation only when its goroutine is parked at the same repo frame in two samples; at steady states handed == received + slow_conn (connection up) and handed == conn_down_no_spool (down, no spool); the second route must see every line.",
+            "Twenty-one endpoint scripts (absent, refuse-then-appear, black hole, throttled, healthy with tiny buffers / 8 dispatchers, abortive and graceful close early/late without and with spooling, appear-then-abort, run-time address update away from a black hole and away from a paused endpoint) x generated queue/buffer settings; 1-8 dispatchers push traffic beyond every buffer through a real table with a second healthy route; every Dispatch call is timed and a call in flight beyond the stall bound is a violation only when its goroutine is parked at the same repo frame in two samples; at steady states handed == received + slow_conn (connection up) and handed == conn_down_no_spool (down, no spool); the second route must see every line; across an address update between two healthy endpoints handed == received(old) + received(new) + slow_conn.",
             "'Never' restated as bounded progress over the N hand-offs observed; identities only asserted in steady states; slow-but-returning calls on a loaded machine are reported inconclusive.",
             "DESIGN.md §4 C06"),
     "C07": ("exploration",
@@ -78,7 +78,7 @@ CHECKS = {
             "DESIGN.md §4 C14"),
     "C15": ("exploration",
             "runtime monitoring: reference ring (cross-checked against a CPython transcription of carbon's ConsistentHashRing) compared with real consistentHashing routes through per-destination hand-off counters",
-            "For generated destination sets of 2-12 (host, instance) pairs, in every listing order up to 4 destinations and several above, and along add/remove sequences, every sampled name (incl. names on tied 16-bit positions, on entry boundaries, on wrap-around) was handed to exactly one destination, the one carbon 0.9's ring picks; ownership did not depend on listing order; only keys landing on the added destination, or owned by the removed one, moved. Sampled, not exhaustive.",
+            "For generated destination sets of 2-12 (host, instance) pairs, in every listing order up to 4 destinations and several above, and along add/remove sequences, every sampled name (incl. names on tied 16-bit positions, on entry boundaries, on wrap-around) was handed to exactly one destination, the one carbon 0.9's ring picks; ownership did not depend on listing order; only keys landing on the added destination, or owned by the removed one, moved. Sampled, not exhaustive. A concurrent phase has 8 goroutines dispatch groups of names that collide on cheap hashes and live on different destinations; per-destination totals must equal the ring's, and race reports inside the hasher count.",
             "The Go reference ring is trusted as cross-checked each run against a CPython 3 transcription with emulated Python 2 None ordering; hosts are 127.x literals and never-resolving names of 12-190 characters under .invalid; destinations are permanently disconnected (spool=false) so hand-off counters are the observation; a white-box accessor adds volume but the counter path is verdict-bearing on its own.",
             "DESIGN.md §4 C15"),
     "C16": ("exploration",
@@ -88,12 +88,12 @@ CHECKS = {
             "DESIGN.md §4 C16"),
     "C17": ("exploration",
             "runtime monitoring: scripted-fault HTTP endpoint + decoded-delivery log + stall detector with goroutine samples, under -race",
-            "Real GrafanaNet routes (concurrency 1-8, blocking on/off, small/large buffers, flushMaxNum 1-100, flushMaxWait 5-100 ms, timeout 100-300 ms) are driven with uniquely tagged points against a loopback gateway that decodes every POST (snappy, msg header, msgp) and answers from a generated per-request script (2xx in five body shapes, 4xx, 5xx, hang past the client timeout, reset before/after reading). Per case: every accepted metric is in a 2xx-answered POST after the faults stop; per series the first-acknowledgement order equals dispatch order; no failed batch is overtaken; non-blocking Dispatch never parks and every unacknowledged metric is counted queue_full; blocking mode drops nothing; Shutdown() returns once the endpoint is idle and only after everything accepted was acknowledged.",
+            "Real GrafanaNet routes (concurrency 1-8, blocking on/off, small/large buffers, flushMaxNum 1-100, flushMaxWait 5-100 ms, timeout 100-300 ms) are driven with uniquely tagged points against a loopback gateway that decodes every POST (snappy, msg header, msgp) and answers from a generated per-request script (2xx in five body shapes, 4xx, 5xx, hang past the client timeout, reset before/after reading). Per case: every accepted metric is in a 2xx-answered POST after the faults stop; per series the first-acknowledgement order equals dispatch order; no failed batch is overtaken (one script in four answers a run of requests with the same complete error long enough for every batch in flight to see it six times); non-blocking Dispatch never parks and every unacknowledged metric is counted queue_full; blocking mode drops nothing; Shutdown() returns once the endpoint is idle and only after everything accepted was acknowledged.",
             "Retry-until-acknowledged is judged as bounded progress after the scripted faults stop (<= 6 decoded failures per batch, then a healthy endpoint); stalls only on two identical parked stack samples; any 2xx counts as an acknowledgement.",
             "DESIGN.md §4 C17"),
     "C18": ("exploration",
             "runtime monitoring: snapshot-immutability invariant at white-box accessor, forced interleavings via tag-guarded after-load hooks with exact delivery counts, free-running dispatch x admin ops under the race detector (reports scoped to mutator-vs-dispatch), sequential model of the table view",
-            "A: slices loaded from the table/route snapshot are compared element-wise after every delete (all list lengths 1..6 x indexes, five list kinds, add/delete histories). B: a dispatcher is held right after loading the snapshot while the delete happens, then released: every entry that exists before and after must see the line exactly once (capture routes, non-idempotent rewriters, counting aggregators, real destinations, real route deleted); a dispatcher that never returns is confirmed with two stack samples. C: 8 dispatchers x random admin operations: stable routes/destinations must get every line exactly once; race reports with one side in a mutator and the other in a dispatch path count. E: Table.Snapshot() vs model after each operation of random histories (index >= len rejected, unknown route no-op).",
+            "A: slices loaded from the table/route snapshot are compared element-wise after every delete (all list lengths 1..6 x indexes, five list kinds, add/delete histories). B: a dispatcher is held right after loading the snapshot while the delete happens, then released: every entry that exists before and after must see the line exactly once (capture routes, non-idempotent rewriters, counting aggregators, real destinations, real route deleted); a dispatcher that never returns is confirmed with two stack samples (incl. dispatchers that find the inbox of a just-deleted aggregation full). C: 8 dispatchers x random admin operations: stable routes/destinations must get every line exactly once; race reports with one side in a mutator and the other in a dispatch path count. E: Table.Snapshot() vs model after each operation of random histories (index >= len rejected, unknown route no-op).",
             "Capture routes stand for routes at table level; refusing-port destinations make each hand-off visible once in a counter; forced interleavings cover the after-load point only.",
             "DESIGN.md §4 C18"),
     "C19": ("exploration",
